@@ -481,6 +481,13 @@ func c19WrongKind(e *core.Env, rep *core.Report, bin, root string) {
 		"vars_non_func":  "// goverter:variables\nvar (\n\tX int\n)\n",
 		"conv_on_func":   "// goverter:converter\nfunc F(a int) int { return a }\n",
 		"vars_on_func":   "// goverter:variables\nfunc F(a int) int { return a }\n",
+		// the marker is not the first line of the doc comment
+		"conv_on_func_later":   "// F converts.\n//\n// goverter:converter\nfunc F(a int) int { return a }\n",
+		"vars_on_func_later":   "// F converts.\n// goverter:extend X\n// goverter:variables\nfunc F(a int) int { return a }\n",
+		"conv_on_method_later": "type T struct{}\n\n// M converts.\n// goverter:converter\nfunc (T) M(a int) int { return a }\n",
+		"conv_on_var_later":    "// X is a value.\n// goverter:converter\nvar X = 1\n",
+		"conv_on_struct_later": "// X is a struct.\n//\n//goverter:converter\ntype X struct{}\n",
+		"vars_on_type_block":   "/*\nX is an interface.\ngoverter:variables\n*/\ntype X interface{ M(int) int }\n",
 		"conv_on_import": "// goverter:converter\nimport \"fmt\"\n\nvar _ = fmt.Sprint\n",
 	}
 	var names []string
